@@ -1,0 +1,106 @@
+//go:build verif
+
+package quic
+
+import "net/netip"
+
+// Contracts for property C31 (Retry tokens and stateless-reset tokens are bound to their
+// context), checked by the deductive verifier in /verif (govc). Compiled only with -tags verif.
+//
+// What is proved is the plumbing around the cryptographic primitives: which bytes go into the
+// AEAD as nonce, plaintext and additional data when a token is made and when it is validated,
+// and which bytes go into the HMAC for a stateless-reset token. That a token sealed for one
+// context does not open in another one is the authenticity of the AEAD; that different
+// connection IDs or keys give different reset tokens is the collision resistance of HMAC-SHA256:
+// both are cryptographic assumptions, not proved and not used by any proof here.
+
+// c31AddrBytes / c31Port: the two components of the client address that enter the additional data.
+//
+//@ pure
+func c31AddrBytes(a netip.AddrPort) []byte { return a.Addr().AsSlice() }
+
+//@ pure
+func c31Port(a netip.AddrPort) uint16 { return a.Port() }
+
+// additionalData is a pure builder: a length-prefixed source connection ID, the 4- or 16-byte
+// address, the big-endian port.
+//
+//@ func (*retryState).additionalData(rs, srcConnID, addr) (out)
+//@   requires len(srcConnID) <= 255
+//@   ensures len(out) == 1 + len(srcConnID) + len(c31AddrBytes(addr)) + 2
+//@   ensures out[0] == byte(len(srcConnID))
+//@   ensures forall k int :: 0 <= k && k < len(srcConnID) ==> out[1+k] == srcConnID[k]
+//@   ensures forall k int :: 0 <= k && k < len(c31AddrBytes(addr)) ==> out[1+len(srcConnID)+k] == c31AddrBytes(addr)[k]
+//@   ensures out[len(out)-2] == byte(c31Port(addr)>>8) && out[len(out)-1] == byte(c31Port(addr))
+//@   ensures fresh(out)
+//@   allocates
+
+// makeToken: the additional data sealed into the token is additionalData(srcConnID, addr) (the
+// same builder, the same arguments as in validateToken below); the nonce has the AEAD's nonce
+// size, its first 20 bytes become the new connection ID and the rest starts the token; the
+// plaintext is the 8-byte big-endian Unix time followed by the original destination connection ID.
+//
+//@ func (*retryState).makeToken(rs, now, srcConnID, origDstConnID, addr) (token, newDstConnID, err)
+//@   requires rs != nil && rs.aead != nil && len(srcConnID) <= 255 && len(origDstConnID) <= 255
+//@   ghost sealed += 1 at call Seal
+//@   ghost ads += 1 after call additionalData
+//@   assert at call additionalData: seqeq($srcConnID, srcConnID) && $addr == addr
+//@   assert at call Seal: ghost(ads) == 1 && len($additionalData) == 1 + len(srcConnID) + len(c31AddrBytes(addr)) + 2 && $additionalData[0] == byte(len(srcConnID))
+//@   assert at call Seal: forall k int :: 0 <= k && k < len(srcConnID) ==> $additionalData[1+k] == srcConnID[k]
+//@   assert at call Seal: forall k int :: 0 <= k && k < len(c31AddrBytes(addr)) ==> $additionalData[1+len(srcConnID)+k] == c31AddrBytes(addr)[k]
+//@   assert at call Seal: $additionalData[len($additionalData)-2] == byte(c31Port(addr)>>8) && $additionalData[len($additionalData)-1] == byte(c31Port(addr))
+//@   assert at call Seal: len($plaintext) == 8 + len(origDstConnID) && (forall k int :: 0 <= k && k < len(origDstConnID) ==> $plaintext[8+k] == origDstConnID[k])
+//@   assert at call Seal: c31be64($plaintext) == uint64(now.Unix())
+//@   assert at call Seal: len($nonce) >= maxConnIDLen && len($dst) == len($nonce) - maxConnIDLen && (forall k int :: 0 <= k && k < len($dst) ==> $dst[k] == $nonce[maxConnIDLen+k])
+//@   partial nopanic.slice
+//@   ensures err == nil ==> ghost(sealed) == 1 && len(newDstConnID) == maxConnIDLen
+//@   ensures err != nil ==> ghost(sealed) == 0 && token == nil && newDstConnID == nil
+//@   noframe
+//@   allocates
+
+// c31be64 is the big-endian 64-bit value of the first eight bytes.
+//
+//@ pure
+func c31be64(b []byte) uint64 {
+	return uint64(b[0])<<56 | uint64(b[1])<<48 | uint64(b[2])<<40 | uint64(b[3])<<32 | uint64(b[4])<<24 | uint64(b[5])<<16 | uint64(b[6])<<8 | uint64(b[7])
+}
+
+// validateToken: Open is called at most once, with nonce = dstConnID ++ token[:NonceSize-20],
+// ciphertext = the rest of the token and additional data = additionalData(srcConnID, addr): the
+// same builder and arguments as in makeToken. A token is accepted only after that Open call
+// (that the call must have SUCCEEDED and that the timestamp in the opened plaintext is within
+// retryTokenValidityPeriod is visible in the code but cannot be stated: the engine has no
+// `after call` hook for interface method calls, so the result of Open cannot be named).
+//
+//@ func (*retryState).validateToken(rs, now, token, srcConnID, dstConnID, addr) (origDstConnID, ok)
+//@   requires rs != nil && rs.aead != nil && len(srcConnID) <= 255 && len(dstConnID) <= 255 && len(token) <= 1<<20
+//@   ghost opens += 1 at call Open
+//@   ghost ads += 1 after call additionalData
+//@   assert at call additionalData: seqeq($srcConnID, srcConnID) && $addr == addr
+//@   assert at call Open: ghost(ads) == 1 && len($additionalData) == 1 + len(srcConnID) + len(c31AddrBytes(addr)) + 2 && $additionalData[0] == byte(len(srcConnID))
+//@   assert at call Open: forall k int :: 0 <= k && k < len(srcConnID) ==> $additionalData[1+k] == srcConnID[k]
+//@   assert at call Open: forall k int :: 0 <= k && k < len(c31AddrBytes(addr)) ==> $additionalData[1+len(srcConnID)+k] == c31AddrBytes(addr)[k]
+//@   assert at call Open: $additionalData[len($additionalData)-2] == byte(c31Port(addr)>>8) && $additionalData[len($additionalData)-1] == byte(c31Port(addr))
+//@   assert at call Open: len($nonce) >= len(dstConnID) && len($nonce) - len(dstConnID) <= len(token) && len($ciphertext) == len(token) - (len($nonce) - len(dstConnID))
+//@   assert at call Open: forall k int :: 0 <= k && k < len(dstConnID) ==> $nonce[k] == dstConnID[k]
+//@   assert at call Open: forall k int :: 0 <= k && k < len($nonce) - len(dstConnID) ==> $nonce[len(dstConnID)+k] == token[k]
+//@   assert at call Open: forall k int :: 0 <= k && k < len($ciphertext) ==> $ciphertext[k] == token[len($nonce) - len(dstConnID) + k]
+//@   partial nopanic.slice
+//@   ensures ghost(opens) <= 1
+//@   ensures ok ==> ghost(opens) == 1
+//@   ensures !ok ==> origDstConnID == nil
+//@   noframe
+//@   allocates
+
+// statelessResetTokenGenerator.init: stateless resets are enabled exactly when the configured
+// key is not all zero (with an all-zero key a random one is drawn and resets stay disabled).
+// (tokenForConnID itself is outside the engine's subset: `defer` of an interface method call.)
+//
+//@ func (*statelessResetTokenGenerator).init(g, secret)
+//@   requires g != nil
+//@   loop 1 invariant -1 <= rangeindex && rangeindex < 32
+//@   loop 1 invariant zero && (forall k int :: 0 <= k && k <= rangeindex ==> secret[k] == 0)
+//@   ensures g.canReset <==> (exists k int :: 0 <= k && k < 32 && secret[k] != 0)
+//@   ensures g.mac != nil
+//@   modifies g.canReset, g.mac
+//@   allocates
